@@ -5,7 +5,8 @@ run ./check Cxx on /repo with the patch applied, undo it, and store everything u
 import json, os, shutil, subprocess, sys, time
 prop = sys.argv[1]
 ks = [int(x) for x in sys.argv[2:]] or [1, 2, 3]
-OUT = f"/tmp/seed_{prop}_out"
+ROUND = os.environ.get("SEED_ROUND", "1")          # SEED_ROUND=2: second round of seeders (/tmp/seed2_Cxx_out -> seeded/Cxx_r2m<k>)
+OUT = f"/tmp/seed_{prop}_out" if ROUND == "1" else f"/tmp/seed{ROUND}_{prop}_out"
 REPO = "/root/work/seed_repo"     # a clone of /repo: other work in this sandbox keeps using /repo undisturbed
 if not os.path.isdir(REPO):
     subprocess.run(["git", "clone", "-q", "/repo", REPO], check=True)
@@ -31,7 +32,7 @@ for k in ks:
     if not os.path.exists(base + ".patch.diff"):
         print(prop, k, "missing"); continue
     res = {"property": prop, "k": k}
-    dst = f"/verif/seeded/{prop}_m{k}"
+    dst = f"/verif/seeded/{prop}_m{k}" if ROUND == "1" else f"/verif/seeded/{prop}_r{ROUND}m{k}"
     os.makedirs(dst, exist_ok=True)
     shutil.copy(base + ".patch.diff", dst + "/patch.diff")
     shutil.copy(base + ".demo.py", dst + "/demo.py")
